@@ -91,6 +91,7 @@ harness("pwb_readout_complete", "padwing::ChannelId::try_from(u16)", True, bound
 harness("name_adc16_4", "midas::Adc16BankName::try_from(&str)", True, bound="all 4-byte strings (the only length accepted)", timeout=1500)
 harness("name_adc32_4", "midas::Adc32BankName::try_from(&str)", True, bound="all 4-byte strings", timeout=1500)
 harness("name_padwing_4", "midas::PadwingBankName::try_from(&str)", True, bound="all 4-byte strings", timeout=1500)
+harness("name_padwing_reject", "midas::PadwingBankName::try_from(&str) on every other 4-byte string", True, bound="all 4-byte strings that are not \"PC\" + two digits", timeout=1500)
 harness("name_fixed_4", "Trigger/Trb3/Seq2/McVertex/ChronoboxBankName::try_from(&str)", True, bound="all 4-byte strings", timeout=1500)
 harness("name_main_event_4", "MainEventBankName / Alpha16BankName dispatch", True, bound="all 4-byte strings", timeout=3000)
 harness("name_other_lengths", "bank-name parsers on strings of 0..=8 bytes except 4", False, bound="string length <= 8 bytes", timeout=3000)
